@@ -264,7 +264,11 @@ pub(crate) fn read_tag(
     let mut num_strings: usize = 1;
     loop {
         // read string
-        let (inlen, outlen) = json_unescape(&input[*inposp..], &mut output[*outposp + 2..])?;
+        let outbuf = match output.get_mut(*outposp + 2..) {
+            Some(o) => o,
+            None => return Err(InnerError::BufferTooSmall(*outposp + 2).into()),
+        };
+        let (inlen, outlen) = json_unescape(&input[*inposp..], outbuf)?;
         // write the length before it
         put(output, *outposp, (outlen as u16).to_ne_bytes().as_slice())?;
         // bump the outposp past it
@@ -310,7 +314,11 @@ pub(crate) fn read_content(
     verify_char(input, b'"', inposp)?;
 
     // Place content 4 bytes beyond tags, to reserve space for content length
-    let (inlen, outlen) = json_unescape(&input[*inposp..], &mut output[after_tags + 4..])?;
+    let outbuf = match output.get_mut(after_tags + 4..) {
+        Some(o) => o,
+        None => return Err(InnerError::BufferTooSmall(after_tags + 4).into()),
+    };
+    let (inlen, outlen) = json_unescape(&input[*inposp..], outbuf)?;
     *inposp += inlen;
     verify_char(input, b'"', inposp)?; // pass the end quote (missing if the input ended)
 
